@@ -895,6 +895,8 @@ pub fn promise_race(
 
     // Collect pending Promises with their order_ids and check for already-settled ones
     let mut pending_promises: Vec<(Gc<JsObject>, Option<crate::OrderId>)> = Vec::new();
+    // The first already-settled input wins at once: (is_fulfilled, value)
+    let mut immediate_winner: Option<(bool, JsValue)> = None;
 
     for promise_value in &promises {
         let (status, result, order_id) = if let JsValue::Object(obj) = promise_value {
@@ -916,17 +918,11 @@ pub fn promise_race(
         };
 
         match status {
-            PromiseStatus::Fulfilled => {
-                // First settled wins - return fulfilled Promise immediately
-                let value = result.unwrap_or(JsValue::Undefined);
-                let promise = create_fulfilled_promise(interp, &guard, value);
-                return Ok(Guarded::with_guard(JsValue::Object(promise), guard));
-            }
-            PromiseStatus::Rejected => {
-                // First settled wins - return rejected Promise immediately
-                let reason = result.unwrap_or(JsValue::Undefined);
-                let promise = create_rejected_promise(interp, &guard, reason);
-                return Ok(Guarded::with_guard(JsValue::Object(promise), guard));
+            PromiseStatus::Fulfilled | PromiseStatus::Rejected => {
+                if immediate_winner.is_none() {
+                    let is_fulfilled = status == PromiseStatus::Fulfilled;
+                    immediate_winner = Some((is_fulfilled, result.unwrap_or(JsValue::Undefined)));
+                }
             }
             PromiseStatus::Pending => {
                 if let JsValue::Object(obj) = promise_value {
@@ -934,6 +930,23 @@ pub fn promise_race(
                 }
             }
         }
+    }
+
+    if let Some((is_fulfilled, value)) = immediate_winner {
+        // First settled wins.  Every still-pending input has lost the race: tell the
+        // host that its order is no longer needed, exactly as the handler path does
+        // when the race settles later.
+        for (_, order_id) in &pending_promises {
+            if let Some(id) = order_id {
+                interp.cancelled_orders.push(*id);
+            }
+        }
+        let promise = if is_fulfilled {
+            create_fulfilled_promise(interp, &guard, value)
+        } else {
+            create_rejected_promise(interp, &guard, value)
+        };
+        return Ok(Guarded::with_guard(JsValue::Object(promise), guard));
     }
 
     // All Promises are pending - create result Promise and attach handlers
